@@ -306,3 +306,18 @@ package multiparty
 //@   requires !isnil(gkg.params.ringQ) && !isnil(gkg.params.ringQ.SubRings[0]) && !isnil(gkg.params.ringQ.SubRings[0].NTTTable)
 //@   requires implies(len(shareOut.Value[0][0][0].P.Coeffs) > 0, !isnil(gkg.params.ringP))
 //@   ensures shareOut.GaloisElement == galEl
+
+// ---- arguments are not retained (property C09): no reference to memory of the caller's input is stored
+// ---- into the receiver, the output or another argument (a pointer assignment where a copy was meant)
+//@ noescape KeySwitchProtocol.KeySwitch ctIn
+//@   property C09
+
+//@ noescape PublicKeySwitchProtocol.KeySwitch ctIn
+//@   property C09
+
+//@ noescape KeySwitchProtocol.GenShare ct
+//@   property C09
+
+//@ noescape PublicKeySwitchProtocol.GenShare ct
+//@   property C09
+
